@@ -54,7 +54,10 @@ Step(e) ==
                     /\ buffer' = << >> /\ UNCHANGED txnOpen
             /\ wr' = W
             /\ UNCHANGED tid
-            /\ LET c == IF e.raised /\ e.honest THEN "C08:flush_of_accepted_blocks_failed" ELSE IF e.raised THEN "" ELSE ReadClause(e, W)
+            /\ LET c0 == IF e.raised /\ e.honest THEN "C08:flush_of_accepted_blocks_failed" ELSE IF e.raised THEN "" ELSE ReadClause(e, W)
+                   \* C17 on what a restarted node holds: the ordered transaction list of every block read back is the list its header commits to
+                   c == IF ~e.raised /\ Traces[tid].prop = "C17" /\ (\E i \in 1..Len(e.read) : ~e.read[i].merkle_ok)
+                        THEN "C17:block_read_back_from_the_store_holds_another_list_than_its_header_commits_to" ELSE c0
                    rs == {[id |-> e.read[i].id, parent |-> e.read[i].parent, height |-> e.read[i].height, txids |-> e.read[i].txids] : i \in 1..Len(e.read)}
                IN /\ (~e.raised /\ rs # ReadSet' => PrintT(ToJson(<< "DRIFT", Traces[tid].id, l, "read-back differs from Store!ReadSet" >>)))
                   /\ IF c # "" /\ ~(c = "C08:shared_transaction_kept_for_first_block_only" /\ e.continue_after_known)
@@ -79,6 +82,7 @@ CrashClause(e, p) ==
      ELSE IF \E i \in 1..Len(rd) : rd[i].txids # TxIds(H[rd[i].id]) THEN pre("block_read_back_after_a_crash_lacks_transactions")
      ELSE IF \E i \in 1..Len(rd) : ~rd[i].bytes_equal THEN pre("block_read_back_after_a_crash_differs_from_the_block_handed_over")
      ELSE IF \E i \in 1..Len(rd) : rd[i].parent # NoB /\ (rd[i].parent \notin ids \/ pos(rd[i].parent) > i) THEN pre("child_read_before_parent_after_a_crash")
+     ELSE IF p = "C17" /\ (\E i \in 1..Len(rd) : ~rd[i].merkle_ok) THEN "C17:block_read_back_from_the_store_holds_another_list_than_its_header_commits_to"
      ELSE IF p = "C01" /\ e.spent_is_unspent THEN "C01:output_spent_by_an_ancestor_is_spendable_again_after_a_crash"
      ELSE IF p = "C02" /\ e.total_exceeds THEN "C02:total_of_unspent_outputs_exceeds_the_schedule_after_a_crash"
      ELSE IF ~e.ledger_equal THEN pre("ledger_rebuilt_after_a_crash_differs_from_replay")
